@@ -59,8 +59,12 @@ pub fn check_dates(b: &YearBlock, obs: &mut Obs) -> Verdict {
                 }
                 Err(e) => vfail!("{day}: inside 1900-04-06..2101-04-05 but from_date failed: {e}"),
             }
-        } else if got.is_ok() {
-            vfail!("{day}: outside the supported range (tax year {start}) but from_date succeeded");
+        } else if let Ok(p) = &got {
+            // outside 1900..2100 the statement promises nothing; a wider range is fine as long as
+            // the date still lands in the tax year the 6 April rule gives
+            if p.start_year() as i32 != start {
+                vfail!("{day}: tax year {} but 6 April rule gives {start}", p.start_year());
+            }
         }
         n += 1;
         day = day.succ_opt().expect("succ");
@@ -192,8 +196,13 @@ pub fn check(c: &Case, obs: &mut Obs) -> Verdict {
                 obs.class("filter_on_unconfigured_or_out_of_range_year_errors");
             }
             Outcome::Ok(r) => {
+                if !in_range {
+                    // outside the supported range nothing is promised either way
+                    obs.class("filter_on_out_of_range_year_answered");
+                    continue;
+                }
                 if !configured {
-                    return Verdict::fail(format!("year filter {y} has no configured exemption (or is out of range) but a report was produced"));
+                    return Verdict::fail(format!("year filter {y} has no configured exemption but a report was produced"));
                 }
                 if r.tax_years.len() != 1 || r.tax_years[0].period.start_year() as i32 != y {
                     vfail!("year filter {y}: report lists {:?}", r.tax_years.iter().map(|t| t.period.start_year()).collect::<Vec<_>>());
